@@ -4,8 +4,9 @@ package async
 // code, consumer goroutine included (cooperative goroutine model of the engine): a producer enqueues k bursts of
 // symbolic size while the reader takes symbolic numbers of items off the channel in between; the channel has a small
 // symbolic buffer, so the consumer goroutine blocks in the middle of forwarding.  What the reader gets, followed by
-// what it reads after Close, must be exactly what was enqueued, in order (FIFO, loss-free, no duplicates).
+// what it reads after Close, must be exactly what was enqueued, in order (FIFO, loss-free, no duplicates), and the consumer goroutine must have ended.
 func VerifC02Queue() {
+	vsymGoroutineBase()
 	k := vsymParam("k")
 	maxBurst := vsymParam("burst")
 	buf := vsymChoice("chanBuffer", 3)
@@ -49,6 +50,7 @@ func VerifC02Queue() {
 		got = append(got, v)
 	}
 	vsymCover("queue-drained")
+	vsymAssert(vsymLiveGoroutines() == 0, "after Close and draining the channel the consumer goroutine has ended (no leak)")
 	vsymAssert(len(got) == next, "every enqueued update is delivered exactly once (none lost, none duplicated)")
 	for i := range got {
 		if i < next {
